@@ -15,6 +15,8 @@
 //	              selector or a traversal variable instead of a copy
 //	lockOps       number of Lock/Unlock/RLock/RUnlock calls in the method and its callees; exactly 2 for a
 //	              FIB method (the lock and its deferred unlock: the critical section is never left early)
+//	reentrant     number of calls, from the method or its same-type callees, to an exported (= locking)
+//	              method of the same table type (must be 0: sync.RWMutex is not re-entrant)
 //	callsRib      the method (transitively) mentions the identifier Rib (lock order: RIB -> FIB only)
 //
 // The Lean side (NdnVerif/C16/Props.lean) proves by evaluation that every method is disciplined.
@@ -118,8 +120,8 @@ func isFreshExpr(e ast.Expr) bool {
 }
 
 type facts struct {
-	writes, live, lockOps int
-	callsRib              bool
+	writes, live, lockOps, reentrant int
+	callsRib                         bool
 }
 
 func analyse(d *ast.FuncDecl, byName map[string][]*ast.FuncDecl, seen map[*ast.FuncDecl]bool, f *facts, top bool, owner string) {
@@ -207,6 +209,12 @@ func analyse(d *ast.FuncDecl, byName map[string][]*ast.FuncDecl, seen map[*ast.F
 				}
 			case *ast.SelectorExpr:
 				for _, callee := range byName[fun.Sel.Name] {
+					// a table method (or its same-type callee) calling an EXPORTED method of its own table
+					// type would take the table's mutex a second time: sync.RWMutex is not re-entrant
+					// (a reader re-entering deadlocks as soon as a writer is queued in between)
+					if countLocks && recvType(callee) == owner && ast.IsExported(callee.Name.Name) {
+						f.reentrant++
+					}
 					analyse(callee, byName, seen, f, false, owner)
 				}
 			}
@@ -274,7 +282,7 @@ func main() {
 	}
 	var sb strings.Builder
 	sb.WriteString("/- GENERATED by harness/cmd/lockfacts from the working tree on every run of ./check C16. Do not edit. -/\n")
-	sb.WriteString("namespace Ndn.Gen.C16\n\nstructure MethodFact where\n  typ : String\n  name : String\n  lock : String\n  deferUnlock : Bool\n  sharedWrites : Nat\n  returnsLive : Nat\n  lockOps : Nat\n  callsRib : Bool\nderiving Repr, DecidableEq\n\ndef methods : List MethodFact := [\n")
+	sb.WriteString("namespace Ndn.Gen.C16\n\nstructure MethodFact where\n  typ : String\n  name : String\n  lock : String\n  deferUnlock : Bool\n  sharedWrites : Nat\n  returnsLive : Nat\n  lockOps : Nat\n  reentrant : Nat\n  callsRib : Bool\nderiving Repr, DecidableEq\n\ndef methods : List MethodFact := [\n")
 	for i, m := range methods {
 		d := m.decl
 		rn := recvName(d)
@@ -299,7 +307,7 @@ func main() {
 		if i == len(methods)-1 {
 			sep = ""
 		}
-		fmt.Fprintf(&sb, "  ⟨%q, %q, %q, %v, %d, %d, %d, %v⟩%s\n", m.recv, d.Name.Name, lock, deferOK, f.writes, f.live, f.lockOps, f.callsRib, sep)
+		fmt.Fprintf(&sb, "  ⟨%q, %q, %q, %v, %d, %d, %d, %d, %v⟩%s\n", m.recv, d.Name.Name, lock, deferOK, f.writes, f.live, f.lockOps, f.reentrant, f.callsRib, sep)
 	}
 	sb.WriteString("]\n\nend Ndn.Gen.C16\n")
 	old, _ := os.ReadFile(out)
